@@ -77,6 +77,7 @@ type Exec struct {
 	accessorState *State // state in which defined accessors are evaluated
 	allFuncs map[string]*ssa.Function
 	namedFuns map[string]*namedFun
+	namedReads map[string][]string
 	perm []*Term // facts that hold unconditionally and must survive roll-backs (literal definitions, ...)
 	calledCells map[string]*Cell
 	retCells map[string]*Cell
@@ -97,7 +98,7 @@ func NewExec(prog *ssa.Program, db *SpecDB, fset *token.FileSet) *Exec {
 	return &Exec{ctx: NewCtx(), prog: prog, db: db, fset: fset, heapSort: map[string]*Sort{}, written: map[string]bool{}, cellsW: map[*Cell]bool{},
 		strLits: map[string]*Term{}, typeTags: map[string]int{}, tagTypes: map[int]types.Type{}, fnRefs: map[string]*Term{}, fnByRef: map[string]*ssa.Function{},
 		nameCnt: map[string]int{}, trusted: map[string]bool{}, unmod: map[string]bool{}, axiomsOn: map[string]bool{}, safety: true, maxDepth: 8, useContracts: true,
-		closures: map[string]*Value{}, repoPkgs: map[string]bool{}, mkstrSeen: map[string]bool{}, zarrSeen: map[string]bool{}, namedFuns: map[string]*namedFun{}, freshRefs: map[string]bool{}, freshNames: map[string]bool{}, writeBases: map[string][]*Term{}}
+		closures: map[string]*Value{}, repoPkgs: map[string]bool{}, mkstrSeen: map[string]bool{}, zarrSeen: map[string]bool{}, namedFuns: map[string]*namedFun{}, namedReads: map[string][]string{}, freshRefs: map[string]bool{}, freshNames: map[string]bool{}, writeBases: map[string][]*Term{}}
 }
 
 type Frame struct {
